@@ -311,7 +311,14 @@ void ErrorMatcher::rev_process_instruction(const CircuitInstruction &op) {
     }
     switch (op.gate_type) {
         case GateType::MPAD:
-            error_analyzer.undo_gate(op);
+            // Each padding result can be flipped by the instruction's result noise. There's no measured observable to report.
+            for (size_t k = op.targets.size(); k--;) {
+                cur_loc.instruction_targets.target_range_start = k;
+                cur_loc.instruction_targets.target_range_end = k + 1;
+                cur_loc.flipped_measurement.measurement_record_index = error_analyzer.tracker.num_measurements_in_past - 1;
+                err_atom(CircuitInstruction{op.gate_type, op.args, {&op.targets[k], &op.targets[k] + 1}, op.tag});
+                cur_loc.flipped_measurement.measurement_record_index = UINT64_MAX;
+            }
             break;
         case GateType::E:
         case GateType::ELSE_CORRELATED_ERROR: {
